@@ -5,6 +5,7 @@ import json
 import os
 
 import attr_util as au
+import attrtext_gen as atg
 from common import enc_str, VERIF
 from markup_util import enc_config, decode_expand, impl_expand, NotModelled, canon_cfg
 
@@ -166,6 +167,8 @@ def corpus_cases():
             if fn.endswith('.json'):
                 with open(os.path.join(d, fn)) as f:
                     o = json.load(f)
+                if o.get('mode') == 'text-tree':
+                    continue            # seeds of the character-level stream (attrtext_gen)
                 out.append((o['abbr'], o['config'], [(t, ms) for t, ms in o['expected']], o.get('mode', 'tags')))
     return out
 
@@ -204,7 +207,7 @@ def exhaustive_pairs():
 
 
 def run(ctx):
-    ok = ctx.build(['props/C03.vo', 'run/MarkupRun.vo', 'run/AttrRun.vo'])
+    ok = ctx.build(['props/C03.vo', 'run/MarkupRun.vo', 'run/AttrRun.vo', 'run/TextRun.vo'])
     if ok:
         ctx.obligations('props/C03.v')
     model = ctx.model('markup') if ok else None
@@ -280,6 +283,18 @@ def run(ctx):
     ctx.cov['correspondence']['markup_C03'] = {'cases': len(wires), 'disagreements': dis}
     if ok:
         au.compare_trees(ctx, 'C03', [(c[0], c[1]) for c in cases])
+    # character level (C03_element_attributes_text, C03_statement_attributes_text): elements and flat statements of the
+    # theorems' written grammar over its whole alphabets; oracle = the written mentions (SPEC) against
+    # emmet.abbreviation.parse (attributes before merging); the same texts through the extracted parse_abbr
+    if ok:
+        atg.run_stream(ctx, 'C03', 1500 if ctx.tier == 'quick' else 40000, 500 if ctx.tier == 'quick' else 15000, 0,
+                       kinds={'corpus', 'seed', 'element', 'statement'})
+        # the whole pipeline on the same grammar (C03_expand_element_text): oracle = merged mentions through the output table
+        atg.run_expand_stream(ctx, 'C03', 900 if ctx.tier == 'quick' else 20000)
+        # whole statements through markup.parse (C03_statement_markup_parse): every place carries its own element's mentions
+        atg.run_stmt_parse_stream(ctx, 'C03', 600 if ctx.tier == 'quick' else 15000)
+        # ... and through expand with formatting off (C03_statement_expand): nested tags, every element once, in order
+        atg.run_stmt_expand_stream(ctx, 'C03', 500 if ctx.tier == 'quick' else 12000)
     ctx.cov['corpus_cases'] = n_corpus
     for (abbr, cfg, exp, mode), r in list(zip(cases, impl))[n_corpus + 3000:n_corpus + 3004]:
         ctx.sample({'abbr': abbr, 'config': cfg, 'output': r[1][:160] if r[0] == 'ok' else r})
@@ -290,6 +305,12 @@ def replay(ctx, obj):
     if 'abbr' not in rp:
         print('replay names a broken obligation, no input: %s' % str(rp)[:300])
         return 1
+    if rp.get('component') == 'text-tree':
+        return atg.replay(rp)
+    if rp.get('component') in ('C03expand', 'C03stmtexpand'):
+        return atg.replay_expand(rp)
+    if rp.get('component') == 'stmt-parse':
+        return atg.replay_stmt_parse(rp)
     exp = [(t, ms) for t, ms in rp['expected']]
     why, plain = (check_verbatim if rp.get('mode') == 'verbatim' else check_case)(rp['abbr'], rp['config'], exp)
     print('expand(%r, %r) -> %r\nproperty oracle: %s' % (rp['abbr'], rp['config'], plain, why or 'holds'))
